@@ -389,6 +389,10 @@ func (g *goGen) expr(e *cexpr, inOld bool) string {
 			return "(!math.IsNaN(" + a + ") && !math.IsInf(" + a + ", 0))"
 		case "floor":
 			return "math.Floor(" + g.expr(e.args[0], inOld) + ")"
+		case "trunc":
+			return "math.Trunc(" + g.expr(e.args[0], inOld) + ")"
+		case "ifloor":
+			return "int(math.Floor(" + g.expr(e.args[0], inOld) + "))"
 		case "f64":
 			return "float64(" + g.expr(e.args[0], inOld) + ")"
 		case "fresh":
